@@ -14,7 +14,16 @@ impl Vocab {
     pub fn uri(&self, id: &str) -> String {
         self.v["uris"][id]["uri"].as_str().unwrap_or(id).to_string()
     }
+    /// `urn+<id>` / `query+<id>`: the text of <id> inside a URL of a non-hierarchical scheme / in the query and fragment
+    /// of an http URL (the places where a URL parser leaves quotes and backslashes alone)
     pub fn text(&self, id: &str) -> String {
+        if let Some(rest) = id.strip_prefix("urn+") {
+            return format!("urn:zv:{}", self.text(rest));
+        }
+        if let Some(rest) = id.strip_prefix("query+") {
+            let t = self.text(rest);
+            return format!("http://zv.test/c14/svc?x={t}#{t}");
+        }
         self.v["texts"][id].as_str().unwrap_or(id).to_string()
     }
 }
